@@ -94,6 +94,10 @@ def bounded(repo, tier, seed):
     n = 56 if tier == 'quick' else 1500
     r1 = pd.run(repo, tier, seed, ['C05'], MODES if tier != 'quick' else (lambda i: [MODESQ[i % len(MODESQ)]]), n, params_list=PARAMS,
                 overrides=lambda i: dict(generator='planted', modes=['separate'], params={}) if i % 4 == 3 else None)
+    # densely labelled short contigs with molecules flush with a contig end: seed peaks that score at or below the noise level of their correlation
+    nd = 40 if tier == 'quick' else 600
+    r1d = pd.run(repo, tier, seed + 17, ['C05'], lambda i: ['separate'], nd, params_list=[{}, {'p': 5}],
+                 overrides=lambda i: dict(generator='dense'))
     filt, sel = unit_cases()
     chunks = [('filter', filt[i:i + 600]) for i in range(0, len(filt), 600)] + [('select', sel[i:i + 1500]) for i in range(0, len(sel), 1500)]
     res = pmap(unit_chunk, chunks, repo)
@@ -113,7 +117,7 @@ def bounded(repo, tier, seed):
                 "non-trivial = something had to be dropped",
                 [dict(unit='filter', case=[list(x) for x in filt[300]]), dict(unit='select', case=[sel[200][0], [list(x) for x in sel[200][1]]])],
                 list(viol.values())[:4], exhaustive=True, bounds="lists of <= 5 rows; <= 6 peaks")
-    return merge([r1, r2])
+    return merge([r1, r1d, r2])
 
 
 def replay(repo, rp):
